@@ -90,6 +90,70 @@ func init() {
 			return fmt.Errorf("leafBuilder.size no longer has the mirrored shape")
 		}
 		out.WriteString("def prefixCap : Nat := 255\n")
+		// rangefrac.go: the constants of the estimate and the two-sided clamp
+		rfsrc, err := os.ReadFile(filepath.Join(repo, "db19/index/btree/rangefrac.go"))
+		if err != nil {
+			return err
+		}
+		rft := string(rfsrc)
+		spread := ""
+		for _, line := range strings.Split(rft, "\n") {
+			t := strings.TrimSpace(line)
+			if strings.HasPrefix(t, "if spread > ") {
+				spread = strings.TrimSpace(strings.TrimSuffix(strings.SplitN(strings.TrimPrefix(t, "if spread > "), "{", 2)[0], " "))
+			}
+		}
+		if spread == "" {
+			return fmt.Errorf("rangefrac.go: `if spread > <n> {` not found")
+		}
+		for _, c := range spread {
+			if c < '0' || c > '9' {
+				return fmt.Errorf("rangefrac.go: spread limit %q is not an integer literal", spread)
+			}
+		}
+		fmt.Fprintf(out, "def rfSpread : Nat := %s\n", spread)
+		fmt.Fprintf(out, "def rfMaxToRead : Nat := %s\n", rf.intConst("maxToRead"))
+		clampUp := 0
+		if strings.Contains(rft, "if result < 0 {\n\t\t\tresult = 0\n\t\t} else if result > 1 {\n\t\t\tresult = 1\n\t\t}") {
+			clampUp = 1
+		}
+		fmt.Fprintf(out, "/-- 1 iff rangeFrac clamps its result to [0,1] on both sides -/\ndef rfClampBoth : Nat := %d\n", clampUp)
+		// the statements the abstract tree model mirrors (Model/BtreeTree, BtreeMerge, BtreeCodec)
+		shapes := []struct{ file, text, what string }{
+			{"builder.go", "cp := str.CommonPrefixLen(prev, key)\n\treturn key[:cp+1]", "Builder.sep"},
+			{"builder.go", "newSize := tree.size() + len(sep) + 7\n\tif tree.noffs() >= splitCount || newSize > maxNodeSize {", "Builder.addTree close condition"},
+			{"builder.go", "if !b.leaf.tryAdd(key, off) {", "Builder.addLeaf"},
+			{"treenode.go", "return b.entrySize + 8", "treeBuilder.size"},
+			{"treenode.go", "b.entrySize += len(key) + 7", "treeBuilder.add"},
+			{"treenode.go", "splitPos := nkeys / 2\n\n\t// The split key is the key at the split position (NOT shortened)\n\tsplitKey = string(nd.key(splitPos))", "treeNode.splitTo"},
+			{"treenode.go", "if string(nd.key(mid)) <= key {\n\t\t\tlo = mid + 1", "treeNode.search"},
+			{"leafnode.go", "splitPos := nkeys / 2", "leafNode.splitTo position"},
+			{"leafnode.go", "cp := str.CommonPrefixLen(string(prevSuffix), string(nextSuffix))\n\tsplitKey = cat(prefix, nextSuffix[:cp+1])", "leafNode.splitTo separator"},
+			{"leafnode.go", "if (i == 0 || i == n) && !str.HasPrefix(key, prefix) {", "leafNode.insert rebuild condition"},
+			{"leafnode.go", "fieldPos := 4 + n*7 + prelen // position where field data starts", "leafBuilder.finishInto layout"},
+			{"leafnode.go", "if n == 1 {\n\t\tprelen = 0\n\t} else if prelen > 255 {", "leafBuilder.finishInto prefix rule"},
+			{"leafnode.go", "if n-1 == 1 {\n\t\tnd[1] = 0  // clear prefix length", "leafNode.delete prefix rule"},
+			{"merge.go", "return nd.noffs() > splitCount || nd.size() > maxNodeSize", "shouldSplit"},
+			{"merge.go", "if st.leaf.leaf.nkeys() == 0 {\n\t\tst.dropLeaf()", "updateLeaf drop"},
+			{"merge.go", "} else if shouldSplit(st.leaf.leaf) {\n\t\tst.split()", "updateLeaf split"},
+			{"merge.go", "if tm.tree.noffs() > 1 {\n\t\t\tbreak\n\t\t}", "dropLeaf root popping"},
+		}
+		cache := map[string]string{}
+		for _, sh := range shapes {
+			txt, ok := cache[sh.file]
+			if !ok {
+				b, err := os.ReadFile(filepath.Join(repo, "db19/index/btree", sh.file))
+				if err != nil {
+					return err
+				}
+				txt = string(b)
+				cache[sh.file] = txt
+			}
+			if !strings.Contains(txt, sh.text) {
+				return fmt.Errorf("%s: %s no longer has the mirrored shape (expected %q)", sh.file, sh.what, sh.text)
+			}
+		}
+		fmt.Fprintf(out, "/-- number of source statements checked to have the shape the tree model mirrors -/\ndef treeShapes : Nat := %d\n", len(shapes))
 		// shape: the merge still goes through state.modify with the three asserted cases
 		m := parseGo(filepath.Join(repo, "db19/index/btree/merge.go"))
 		m.method("state", "modify")
